@@ -133,7 +133,7 @@ Theorem geval_good : forall n, Good (gev n).
 Proof.
   induction n as [|n IH]; intros e f st r f' st' E Hf; [rewrite geval_O in E; discriminate|].
   rewrite geval_S in E.
-  destruct e as [l|es|es|e1|e1|e1|plus sep omitsep e1|neg e1|e1|rr|il nm e1|il e1].
+  destruct e as [l|es|es|e1|e1|e1|plus sep omitsep e1|neg e1|e1|lft e1|rr|il nm e1|il e1].
   - eapply leaf_good; eassumption.
   - pose proof (seq_go_good _ IH _ _ _ _ _ _ _ E) as B. cbn in B. apply B. exact Hf.
   - eapply choice_go_good; eassumption.
@@ -146,6 +146,8 @@ Proof.
   - eapply rep_eval_good; eassumption.
   - destruct neg; destruct (gev n e1 (push f) st) as [[v f1|c|x] st1]; try discriminate; inversion E; subst; lia.
   - eapply skipto_go_good; eassumption.
+  - destruct (gev n e1 (push f) st) as [[v f1|c|x] st1] eqn:E1; try discriminate.
+    inversion E; subst. pose proof (IH _ _ _ _ _ _ E1) as B. cbn in *. apply B. exact Hf.
   - eapply call_good; [exact IH|exact E|exact Hf].
   - destruct il; destruct (gev n e1 f st) as [[v f1|c|x] st1] eqn:E1; try discriminate;
       inversion E; subst; cbn; eapply IH; eassumption.
